@@ -135,12 +135,21 @@ struct BaseNode {
   }
 };
 
-template <typename G>
+//! Is the edge part of the residual graph? FF and ABMP keep only residual
+//! edges in the graph; the max-flow formulation keeps both directions of
+//! every edge and gives the saturated one capacity 0.
+template <typename G, template <typename, bool> class Algo>
+struct Residual {
+  bool operator()(G&, const typename G::edge_iterator&) { return true; }
+};
+
+template <typename G, template <typename, bool> class Algo>
 struct MarkReachable {
   typedef typename G::GraphNode GraphNode;
   typedef typename G::edge_iterator edge_iterator;
 
   void operator()(G& g, const GraphNode& root) {
+    Residual<G, Algo> residual;
     std::deque<GraphNode> queue;
     queue.push_back(root);
 
@@ -151,6 +160,8 @@ struct MarkReachable {
         continue;
       g.getData(cur).reachable = true;
       for (auto ii : g.edges(cur)) {
+        if (!residual(g, ii))
+          continue;
         GraphNode dst = g.getEdgeDst(ii);
         queue.push_back(dst);
       }
@@ -182,7 +193,7 @@ struct PrepareForVerifier {
     for (typename NodeList::iterator ii = g.A.begin(), ei = g.A.end(); ii != ei;
          ++ii) {
       if (g.getData(*ii).free)
-        MarkReachable<G>()(g, *ii);
+        MarkReachable<G, Algo>()(g, *ii);
     }
 
     for (typename Matching::iterator ii = matching->begin(),
@@ -915,6 +926,13 @@ struct MatchingMF {
     g.removeNode(source);
     extractMatching(g);
     t.stop();
+  }
+};
+
+template <typename G>
+struct Residual<G, MatchingMF> {
+  bool operator()(G& g, const typename G::edge_iterator& ii) {
+    return g.getEdgeData(ii).cap > 0;
   }
 };
 
